@@ -17,8 +17,7 @@ while [ $i -lt $n ]; do
   awk -v n=$n -v i=$i 'NR % n == i' /tmp/matrix.items > /tmp/wk/$ws/items
   (
     cd /tmp/wk/$ws/verif
-    # start from the dependency artefacts already built for /verif (the workspace's own crates are rebuilt)
-    [ -d /verif/.build ] && cp -a /verif/.build /tmp/wk/$ws/verif/.build && rm -rf /tmp/wk/$ws/verif/.build/run
+    # mkworkspace.sh has already seeded .build with the dependency artefacts built for /verif
     ./setup.sh > /tmp/wk/$ws/setup.log 2>&1
     while read kind p; do
       p=$(echo "$p" | sed 's#//#/#')
